@@ -17,6 +17,8 @@ deriving DecidableEq, Repr, Inhabited
 inductive FnKind where
   | anyval                 -- func(x any): handed the field's value
   | anyopen                -- func(x any) with MatchToOpenInterface: handed a pointer to the field
+  | anyopenX (e : Ty)      -- func(x any, extra E) with MatchToOpenInterface: `x` is handed a pointer to the field,
+                           -- `extra` is an ordinary input taken from the chain (whatever its type)
   | ptr (t : Ty)           -- func(p *T)
   | val (t : Ty)           -- func(v T)
 deriving DecidableEq, Repr, Inhabited
@@ -50,6 +52,7 @@ structure PAct where
   field : Nat
   ty : Ty
   ptr : Bool
+  extra : Option Ty := none     -- a further parameter of the action, requested from the chain
 deriving DecidableEq, Repr, Inhabited
 
 /-- `addFieldFiller`'s matching: `some addressOf`, or `none` = MakeStructBuilder returns an error -/
@@ -57,6 +60,7 @@ def fnMatch (k : FnKind) (t : Ty) : Option Bool :=
   match k with
   | .anyval => some false
   | .anyopen => some true
+  | .anyopenX _ => some true
   | .ptr t' => if t' == t then some true else none
   | .val t' => if t' == t then some false else none
 
@@ -77,7 +81,8 @@ def handleFiller (i : Nat) (t : Ty) (kind : PAKind) (o : PAOpt) (st : FSt) : Opt
       if o.fillSet then (if st.noSkip then st.skip else !o.fill)
       else if ptr then (if st.noSkip then st.skip else true)
       else st.skip
-    some { st with skip := skip, acts := st.acts ++ [{ kind := kind, field := i, ty := t, ptr := ptr }] }
+    let extra := match o.fn with | .anyopenX e => some e | _ => none
+    some { st with skip := skip, acts := st.acts ++ [{ kind := kind, field := i, ty := t, ptr := ptr, extra := extra }] }
 
 def tagStep (opts : PAOptions) (i : Nat) (t : Ty) (st : FSt) : PTag → Option FSt
   | .nofill => some { st with skip := true }
